@@ -20,6 +20,18 @@ CLAIMED = {
         "Open finding: ids outside tt<=63,n<2^18 are wrapped (KNOWN_FINDINGS.json).",
         "6 (C04)",
     ),
+    "C10": (
+        "Coq proof (soundness/completeness of the filter for every configuration, by case analysis; memo invariant by induction over look-up histories) + correspondence sweep on real protocol/gateway objects",
+        "11 theorems in coq/props/C10.v about coq/model/M_Filter.v (= _is_wanted_addrs, _set_active_hgi, select_device_filter_mode, "
+        "get_device.check_filter_lists with its _unwanted memo): blocked never passes, unlisted dropped when enforced, allowed always "
+        "passes (an exact iff), for arbitrary lists/active gateway/enforcement and both directions; the gateway memo never blocks an "
+        "allowed id after any look-up history (partial: except the hard-coded 01:000001, refuted with a witness). Tie: the model is "
+        "evaluated on the same configurations x address pairs as real ReadProtocol/PortProtocol objects (all 10x10x2 combinations per "
+        "configuration), real packets/commands through pkt_received/send_cmd, and look-up histories through a real Gateway.",
+        "Trusted: Coq kernel, harness, CPython. Modelled not verified: ids as integers, logging side effects ignored, the dispatcher's "
+        "handling of LookupError is exercised only end-to-end (oracle). Open finding: 01:000001 hard-coded as unwanted.",
+        "6 (C10)",
+    ),
 }
 
 NOT_YET = "not claimed yet: the Coq model and correspondence harness for this property are not built in this revision (planned in DESIGN.md section 6)"
